@@ -20,7 +20,9 @@ import (
 	"context"
 	"errors"
 	"fmt"
+	"io"
 	"math"
+	"os"
 	"reflect"
 	"regexp"
 	"sort"
@@ -388,6 +390,8 @@ type callCase struct {
 	Err     bool     `json:"returns_error"`
 	NilFunc bool     `json:"nil_func,omitempty"`
 	Src     string   `json:"program"`
+	ErrKind int      `json:"error_value,omitempty"` // which error value the Go function returns (c17ErrValues)
+	Entry   int      `json:"entry,omitempty"`       // 0 ExecProgram, 1 New+Execute, 2 New+ExecuteContext(live, cancellable), 3 New+ExecuteContext(Background)
 
 	ft     reflect.Type
 	args   []awkArg
@@ -395,6 +399,20 @@ type callCase struct {
 }
 
 var sentinel = errors.New("sentinel error from the Go function \xff")
+
+// c17ErrValues: the error values a Go function may return; index 0 is the plain sentinel. Whatever the value is — also one that
+// wraps a context error, io.EOF, or an error whose text imitates the interpreter's own — the run must end with exactly it
+// (seeded C17-q3: an error wrapping context.DeadlineExceeded was swallowed under a live ExecuteContext).
+var c17ErrValues = []error{
+	sentinel,
+	fmt.Errorf("native: %w", context.DeadlineExceeded),
+	fmt.Errorf("native: %w", context.Canceled),
+	context.Canceled,
+	io.EOF,
+	fmt.Errorf("wrapped eof: %w", io.ErrUnexpectedEOF),
+	errors.New("exit"),
+	os.ErrNotExist,
+}
 
 type callOut struct {
 	parseErr   string
@@ -431,7 +449,7 @@ func runCall(cs *callCase) (o callOut) {
 		}
 		if ft.NumOut() == 2 {
 			if cs.Err {
-				res = append(res, reflect.ValueOf(&sentinel).Elem())
+				res = append(res, reflect.ValueOf(&c17ErrValues[cs.ErrKind%len(c17ErrValues)]).Elem())
 			} else {
 				res = append(res, reflect.Zero(errorType))
 			}
@@ -476,8 +494,27 @@ func runCall(cs *callCase) (o callOut) {
 				o.execPanic = fmt.Sprint(r)
 			}
 		}()
-		_, o.execErr = interp.ExecProgram(prog, &interp.Config{Funcs: funcs, Output: &out, Error: &out, Environ: []string{},
-			Stdin: strings.NewReader(c17Record + "\n")})
+		cfg := &interp.Config{Funcs: funcs, Output: &out, Error: &out, Environ: []string{}, Stdin: strings.NewReader(c17Record + "\n")}
+		switch cs.Entry % 4 {
+		case 0:
+			_, o.execErr = interp.ExecProgram(prog, cfg)
+		default:
+			it, err := interp.New(prog)
+			if err != nil {
+				o.execErr = err
+				return
+			}
+			switch cs.Entry % 4 {
+			case 1:
+				_, o.execErr = it.Execute(cfg)
+			case 2:
+				ctx, cancel := context.WithTimeout(context.Background(), time.Hour)
+				_, o.execErr = it.ExecuteContext(ctx, cfg)
+				cancel()
+			default:
+				_, o.execErr = it.ExecuteContext(context.Background(), cfg)
+			}
+		}
 	}()
 	o.out = out.String()
 	return
@@ -503,6 +540,11 @@ func buildCase(c *vh.Ctx, in []reflect.Type, variadic bool, out []reflect.Type, 
 		cs.resVal = genResult(c, out[0])
 		cs.Result = encVal(cs.resVal)
 	}
+	if cs.Err && c.Rng.Intn(2) == 0 {
+		cs.ErrKind = c.Rng.Intn(len(c17ErrValues))
+	}
+	cs.Entry = c.Rng.Intn(4)
+	c.Hit(fmt.Sprintf("entry:%d", cs.Entry))
 	cs.Src = c17Place(c, fmt.Sprintf("print \"before\"; r = %s(%s); zobs(r, r, r); print \"after\"", cs.Name, strings.Join(cs.Args, ", ")))
 	return cs
 }
@@ -550,7 +592,7 @@ func (cs *callCase) leanReq() string {
 	}
 	e := "nil"
 	if cs.Err {
-		e = "e" + vh.HxS(sentinel.Error())
+		e = "e" + vh.HxS(c17ErrValues[cs.ErrKind%len(c17ErrValues)].Error())
 	}
 	fmt.Fprintf(&b, " B %s %s", res, e)
 	return b.String()
@@ -612,7 +654,7 @@ func checkCall(cs *callCase, o callOut) (what, got, want string) {
 	}
 	// result / error
 	if cs.Err {
-		if o.execErr != sentinel {
+		if o.execErr != c17ErrValues[cs.ErrKind%len(c17ErrValues)] {
 			return "a non-nil error result did not abort the run with exactly that error", fmt.Sprintf("%v", o.execErr), "the sentinel error value itself"
 		}
 		if o.out != "before\n" || o.obs.Calls != 0 {
@@ -677,8 +719,8 @@ func cmpLean(cs *callCase, o callOut, ans string) (ok bool, got string) {
 	case o.execPanic != "":
 		real = []string{"panic"}
 	case o.execErr != nil:
-		if o.execErr == sentinel {
-			real = []string{"err", vh.HxS(sentinel.Error())}
+		if o.execErr == c17ErrValues[cs.ErrKind%len(c17ErrValues)] {
+			real = []string{"err", vh.HxS(c17ErrValues[cs.ErrKind%len(c17ErrValues)].Error())}
 		} else {
 			real = []string{"err?", o.execErr.Error()}
 		}
